@@ -696,6 +696,10 @@ func runC10(c *Ctx) {
 		runC10State(c)
 		return
 	}
+	if c.Leg == "retain" {
+		runC10Retain(c)
+		return
+	}
 	r.Rule = "direct: byte strings parsed through a real tds.PacketQueue with tryParsePackage's lookup/LastPkg wiring — valid encodings of every package (library-written and hand-written) with every byte position replaced by {0,1,0x7f,0x80,0xff}, every 2/4-byte window by {0xffff,0x8000 | 0xffff,2^24,2^28}, seeded random windows, every truncation, every bit flip, every token 0..255 + random tails, formats over every data type + random / length-swept row bytes; value: every DataType x length 0..255 x 4 patterns x 2 byte orders; conn: the same strings in packets plus raw header values through a live Conn. non-trivial = the input differs from every valid encoding (value leg: a length the type does not define); distinct = (leg, seed encoding, mutation kind, position)"
 	r.TrustedBase = []string{"hand-written TDS encoders in c10_corpus.go (only used to produce inputs; a wrong encoder yields an input that is merely counted as rejected)", "runtime/metrics /gc/heap/allocs:bytes", "harness/xport transport and header codec"}
 	r.Assumptions = []string{
